@@ -283,6 +283,9 @@ impl Display for InlinePrintAmount<'_, '_> {
                 None => write!(f, "0"),
             },
             _ => {
+                // HashMap doesn't have a stable order, sort them for the reproducible output.
+                let mut vs: Vec<(&Commodity<'_>, &Decimal)> = vs.iter().collect();
+                vs.sort_unstable_by_key(|(c, _)| c.as_str());
                 write!(f, "(")?;
                 for (i, (c, v)) in vs.iter().enumerate() {
                     if i != 0 {
